@@ -746,6 +746,28 @@ def check_seg(case, acc, record=True):
             if opt:
                 exp, got = t2_normal_form(exp), t2_normal_form(got)
             compare(acc, "T2CharStringPen(rounding)", case, got, exp, 0.0)
+            # (d) a tolerance strictly between 0 and 0.5 (documented: "will only round floats which are already close to
+            # their integral part"): every absolute coordinate c becomes floor(c + 0.5) when that is within the tolerance of
+            # c and stays c otherwise; the drawn-back outline equals that point by point (relative operands accumulate a
+            # few ulp). Tolerance chosen from the case's own data, so it is a function of the generated case.
+            tolr = (0.01, 0.05, 0.1, 0.2, 0.3, 0.45)[int(abs(sc) * 7 + len(D)) % 6]
+
+            def mr(v):
+                rv = ot_round(v)
+                return rv if abs(rv - v) <= tolr else v
+
+            pen = t2CharStringPen.T2CharStringPen(None, None, roundTolerance=tolr)
+            gp.replay_ops(close_all(D), pen)
+            cs = pen.getCharString(private=priv, optimize=opt)
+            r = RecordingPen()
+            cs.draw(r)
+            t = 1e-9 * max(1.0, sc)
+            exp = drop_deg([dict(c, start=(mr(c["start"][0]), mr(c["start"][1])), segs=[(s_[0],) + tuple((mr(p[0]), mr(p[1])) for p in s_[1:]) for s_ in c["segs"]]) for c in full], t, drop_empty=True)
+            got = geom.canon(r.value, tol=t, drop_empty=True)
+            if opt:
+                exp, got = t2_normal_form(exp, t), t2_normal_form(got, t)
+            compare(acc, "T2CharStringPen(roundTolerance=partial)", case, got, exp, t)
+            acc.label("t2:partial-tolerance-leg")
             return
         # (a) default rounding; integer lines and 3-point cubics are exact
         Da = []
